@@ -389,6 +389,23 @@ def random_trace(rng, nsteps, focus=None):
 
 
 SKIPS = {}
+GEN_INIT = [{"cols": ["k", "a", "r"], "cell": {"k": [0, -1, 0], "a": [2, 0, -1], "r": [0, 2, 4]}},       # FrameSMEvents!F1, F2
+            {"cols": ["k", "b", "rr"], "cell": {"k": [2, 0], "b": [-1, 4], "rr": [0, 2]}}]
+GEN_PALETTES = [p for p in SM_PALETTES if p.has_na and len(p.values) >= 3 and p is not gamma.STR_FIXED]
+
+
+def replay_behaviour(rng, hist):
+    """Replays one TLC-generated behaviour of FrameSMGen on real frames built from a random palette."""
+    pal = rng.choice(GEN_PALETTES)
+    s = Session(pal, GEN_INIT)
+    tr = {"palette": pal.name, "init": GEN_INIT, "steps": []}
+    for e0 in hist:
+        e = json.loads(json.dumps(e0))
+        e["obs"] = s.step(e)
+        tr["steps"].append(e)
+    return tr
+
+
 PREFIX = {"C01": ("C01:",), "C06": ("C06:",)}
 
 
@@ -440,6 +457,19 @@ def run_for(ctx, prop):
     rng = ctx.rng
     ntr = 1200 if quick else 15000
     traces = [random_trace(rng, rng.randint(2, 7), FOCUS["C04"] if rng.random() < 0.15 else None) for _ in range(ntr)]
+    # spec -> code: every behaviour of the session machine enumerated by TLC (FrameSMGen) is replayed call by call
+    gcfg = "INIT Init\nNEXT Next\nINVARIANT Inv\nCONSTANTS\n  MaxFrames = 6\n  Depth = %d\n"
+    rg = ctx.model_check("FrameSMGen", cfg_text=gcfg % 2, timeout=3000)
+    behaviours = [j["hist"] for j in rg.json_lines if "hist" in j]
+    if quick:
+        behaviours = rng.sample(behaviours, min(len(behaviours), 800))
+    else:
+        rg3 = ctx.model_check("FrameSMGen", cfg_text=gcfg % 3, timeout=3400, heap="12g")
+        b3 = [j["hist"] for j in rg3.json_lines if "hist" in j]
+        behaviours += rng.sample(b3, min(len(b3), 20000))
+    ctx.extra["tlc_generated_behaviours_replayed"] = len(behaviours)
+    for hist in behaviours:
+        traces.append(replay_behaviour(rng, hist))
     bad = validate(ctx, traces)
     mine = PREFIX[prop]
     others = {}
